@@ -26,16 +26,18 @@ type c19Case struct {
 	Callback  string   `json:"callback"` // none | retryif-true | retryif-false | retryiferr-true | retryiferr-reset | retryiferr-false
 	TimeoutMs int      `json:"timeout_ms"` // 0: Do
 	Faults    []string `json:"faults"`
+	OverFrame string   `json:"oversize_framing"` // cl | chunked | close
 }
 
 type c19Plan struct {
-	Cases []c19Case `json:"cases"`
+	MaxResp int       `json:"max_response_body_size"`
+	Cases   []c19Case `json:"cases"`
 }
 
 func init() { scenarios["C19"] = scenC19 }
 
 func scenC19(e *Env) func() {
-	p := &c19Plan{}
+	p := &c19Plan{MaxResp: Pick(e, 1000, 1000, 4096, 2500)}
 	n := 12
 	// enumeration: in the thorough tier the fault sequence of case j of run i
 	// is the (i*n+j)-th sequence of length 6 over the 7 fault kinds
@@ -43,6 +45,7 @@ func scenC19(e *Env) func() {
 	for j := 0; j < n; j++ {
 		c := c19Case{ID: fmt.Sprintf("c%d", j), Method: Pick(e, "GET", "GET", "HEAD", "PUT", "POST", "DELETE", "PATCH"), Body: Pick(e, "none", "none", "bytes", "stream"),
 			Attempts: Pick(e, 0, 0, 1, 2, 3, 6), Callback: Pick(e, "none", "none", "none", "retryif-true", "retryif-false", "retryiferr-true", "retryiferr-reset", "retryiferr-false"), TimeoutMs: Pick(e, 0, 0, 700, 3000)}
+		c.OverFrame = Pick(e, "cl", "cl", "chunked", "close")
 		if c.Method == "GET" || c.Method == "HEAD" {
 			if c.Body == "bytes" {
 				c.Body = "none"
@@ -112,6 +115,7 @@ func c19Run(e *Env, p *c19Plan) {
 			a.BodyLen, a.CloseAt = 400, 60
 		case "oversize":
 			a.BodyLen = 5000
+			a.Framing = c.OverFrame
 		}
 		return a
 	}
@@ -149,7 +153,7 @@ func c19Run(e *Env, p *c19Plan) {
 			return conn, nil
 		}
 		cbCalls := 0
-		hc := &fasthttp.HostClient{Addr: "10.0.0.2:80", Dial: dial, MaxConns: 1, MaxIdemponentCallAttempts: c.Attempts, MaxResponseBodySize: 1000, ReadTimeout: 400 * time.Millisecond, MaxIdleConnDuration: time.Hour}
+		hc := &fasthttp.HostClient{Addr: "10.0.0.2:80", Dial: dial, MaxConns: 1, MaxIdemponentCallAttempts: c.Attempts, MaxResponseBodySize: p.MaxResp, ReadTimeout: 400 * time.Millisecond, MaxIdleConnDuration: time.Hour}
 		allow := false
 		reset := false
 		switch c.Callback {
@@ -222,7 +226,7 @@ func c19Run(e *Env, p *c19Plan) {
 				return
 			}
 			if f == "oversize" && k == tried-1 && c.Method != "HEAD" && err == nil {
-				e.Violation("too-large-accepted", "%s; a 5000-byte body was accepted with MaxResponseBodySize=1000", tag)
+				e.Violation("too-large-accepted", "%s; a 5000-byte body (%s framing) was accepted with MaxResponseBodySize=%d", tag, c.OverFrame, p.MaxResp)
 				return
 			}
 		}
